@@ -329,31 +329,37 @@ Section Injective.
     - simpl. rewrite str_eqb_refl. reflexivity.
   Qed.
 
-  (* file outputs: content AND executable bit come back, from every prior state of the path in which
-     a restore is possible at all (no directory sitting at the path: C06-F3) *)
+  (* file outputs: content AND executable bit come back, from EVERY prior state of the path -- absent,
+     parent absent, a file (same / other content, either exec bit), a directory with whatever content
+     (replaced since the repair of C06-F3) *)
   Theorem file_roundtrip c x st dest :
     cas_sound H st ->
-    file_restore_possible dest = true ->
     let '(st', m) := file_write H c x st in
     file_load H m st' dest = Done (File c x).
   Proof.
-    intros Hs Hp. unfold file_write, file_load, dig. cbn [fm_digest fm_exec d_hash].
-    destruct dest as [| |c' x'|es]; cbn [file_restore_possible] in Hp; try discriminate.
+    intros Hs. unfold file_write, file_load, dig. cbn [fm_digest fm_exec d_hash].
+    destruct dest as [| |c' x'|es].
     - rewrite (cas_written_get c st Hs). reflexivity.
     - rewrite (cas_written_get c st Hs). reflexivity.
     - destruct (str_eqb (H c') (H c)) eqn:E.
       + apply str_eqb_eq, H_inj in E. subst; reflexivity.
       + rewrite (cas_written_get c st Hs). reflexivity.
+    - rewrite (cas_written_get c st Hs). reflexivity.
   Qed.
 
-  (* the guard is exact: with a directory at the path the restore fails *)
-  Theorem file_restore_impossible c x st dest :
-    file_restore_possible dest = false ->
-    let '(st', m) := file_write H c x st in
-    file_load H m st' dest = Error.
+  (* when a file restore fails: exactly when the store lost the blob and the path does not already
+     hold the recorded content -- whatever sits at the path otherwise; and Load always returns *)
+  Theorem file_restore_fails_iff m st dest :
+    (file_load H m st dest = Error <->
+     file_in_place H m dest = false /\ cas_get st (d_hash (fm_digest m)) = None) /\
+    file_load H m st dest <> Stuck.
   Proof.
-    intro Hp. unfold file_write, file_load.
-    destruct dest as [| |c' x'|es]; cbn [file_restore_possible] in Hp; try discriminate. reflexivity.
+    unfold file_load, file_in_place.
+    destruct dest as [| |c' x'|es];
+      try destruct (str_eqb (H c') (d_hash (fm_digest m)));
+      destruct (cas_get st (d_hash (fm_digest m)));
+      (split; [split; [intro E; try discriminate E; auto | intros [E1 E2]; try discriminate; reflexivity]
+              | discriminate]).
   Qed.
 
   (* ---------------- directory outputs *)
@@ -715,15 +721,24 @@ Theorem file_roundtrip_parent_absent :
     let '(st', m) := file_write Hid c x st in
     file_load Hid m st' DParentAbsent = Done (File c x).
 Proof.
-  intros c x st Hs. apply (file_roundtrip Hid (fun x y E => E) c x st DParentAbsent Hs); reflexivity.
+  intros c x st Hs. apply (file_roundtrip Hid (fun x y E => E) c x st DParentAbsent Hs).
 Qed.
 
-(* a restore over a directory sitting at the path fails *)
-Theorem file_roundtrip_refuted_directory :
-  exists c x st,
-    let '(st', d) := file_write Hid c x st in
-    file_load Hid d st' (DDir []) = Error.
-Proof. exists (s1 "x"), false, []. vm_compute. reflexivity. Qed.
+(* the former refutation witness (C06-F3: a restore over a directory sitting at the path failed): the
+   directory -- empty or holding files and sub-directories -- is replaced by the cached file *)
+Definition stale_dir : list (str * node) :=
+  [(s1 "f", File (s1 "x") false); (s1 "d", Dir [(s1 "g", File (s1 "y") true)])].
+Theorem file_roundtrip_directory_replaced :
+  forall c x st, cas_sound Hid st ->
+    let '(st', m) := file_write Hid c x st in
+    file_load Hid m st' (DDir []) = Done (File c x) /\
+    file_load Hid m st' (DDir stale_dir) = Done (File c x).
+Proof.
+  intros c x st Hs.
+  pose proof (file_roundtrip Hid (fun x y E => E) c x st (DDir []) Hs) as H1.
+  pose proof (file_roundtrip Hid (fun x y E => E) c x st (DDir stale_dir) Hs) as H2.
+  destruct (file_write Hid c x st) as [st' m]. split; assumption.
+Qed.
 
 (* flat directory, one file, its blob lost from the cache (the former refutation witness, C04-F2:
    the restore never returned): the restore returns an error *)
